@@ -182,9 +182,10 @@ fn run_interp<M: AlignMarker>(desc: &RunDesc) -> ! {
     match desc.family.as_str() {
         "rc-cells" | "dir-c" => sh.strong_extra = ",C08",
         "rc-wcells" | "dir-w" => sh.weak_extra = ",C09",
-        "tls" | "ebr-churn" => sh.leak_extra = ",C20",
+        "tls" | "ebr-churn" | "dir-t10" | "dir-t11" => sh.leak_extra = ",C20",
         _ => {}
     }
+    sh.signal_depth = desc.cfg.signal_depth;
     shadow::install(sh);
     let mut specs = Vec::new();
     let max_phase = desc.threads.iter().map(|t| t.phase).max().unwrap_or(0);
